@@ -146,6 +146,10 @@ ROWS = {
                "C04 quick: max_frame_size; C08 quick: count_mismatch; C20 quick (129- / 2049-frame cases added to the probe corpus after the first miss): feature_dependent", ""),
     "C20c-2": ("C20", "par.rs feeder stops after the first block shorter than the block size", "a source that delivers in packets (short reads before the end)",
                "C05 quick breadth (packet source, added after reading the change): mt_vs_st|packet_source; C20 quick (packet source case added after the first miss): feature_dependent", ""),
+    "C07c-1": ("C07", "lpc.rs quantize_parameters: trailing-zero trimming rewritten with rposition loses the floor of order 1 (all-zero coefficients give order 0)", "use_fixed=false and a silent channel with use_constant=false (e.g. the side channel of dual mono), or precision 1 on a low-level signal",
+               "C07 quick: accepted_config_panic; C01 quick: encode_fail|panic@bitrepr.rs; C02 quick: encode_fail", ""),
+    "C07c-2": ("C07", "coding.rs encode_subframe: 'too short for prediction' threshold MIN_BLOCK_SIZE (32) instead of MIN_BLOCK_SIZE_FOR_PREDICTION (64)", "a non-constant block of 32..=63 samples (block size 32..=63, or such a last block)",
+               "C07 quick: accepted_config_panic@rice.rs; C01 quick: encode_fail|panic@rice.rs (and mt panic / hang classes)", "patch re-based onto HEAD after fix a79e2f0 touched the import block"),
 }
 
 DROPPED = {
